@@ -50,14 +50,16 @@ def main() -> int:
         if (res.disagreements or lean_broken) and not res.violations:
             # a tie or a theorem broke: search the real code for a concrete failing input (DESIGN §4)
             extra = common.Result()
-            for k in range(1, 4):
-                for s in suites:
-                    if time.time() > deadline:
+            search_deadline = min(deadline, time.time() + (240 if tier == "quick" else 1200))
+            try:
+                for k in range(1, 4):
+                    for s in suites:
+                        s2 = OracleOnly(s)
+                        common.run_suite(s2, seed + 7919 * k, tier, extra, search_deadline)
+                    if extra.violations:
                         break
-                    s2 = OracleOnly(s)
-                    common.run_suite(s2, seed + 7919 * k, "thorough" if k > 1 else tier, extra, deadline)
-                if extra.violations:
-                    break
+            except common.Timeout:
+                pass
             res.violations.extend(extra.violations)
             for kf in extra.known:
                 if kf not in res.known:
